@@ -33,7 +33,15 @@ Definition attr_of_ref (ra : rattr) : option attr :=
 
 Definition cell_rel (c : cell) (r : rcell) : Prop :=
   snd c = [fst r] /\
-  match snd r with None => True | Some ra => fst (fst c) = attr_of_ref ra /\ RA_ok ra end.
+  match snd r with
+  | None => True
+  | Some (ra, rcs) => fst (fst c) = attr_of_ref ra /\ RA_ok ra /\ snd (fst c) = rcs
+  end.
+(* the emulator's TermCharset against the reference's (G0, G1, shift); no ibmpc / SGR mapping in the subset *)
+Definition cs_rel (c : charset_t) (k : Z * Z * Z) : Prop :=
+  let '(g0, g1, sh) := k in
+  cs_sgr c = false /\ cs_g0 c = g0 /\ (g0 = 0 \/ g0 = 1) /\ (cs_g1 c = 0 \/ cs_g1 c = 1) /\ (g1 = -1 \/ cs_g1 c = g1) /\
+  cs_active c = sh /\ (sh = 0 \/ (sh = 1 /\ g1 <> -1)) /\ cs_current c = (if sh =? 0 then g0 else g1).
 Definition grid_rel (t : list row) (g : list rrow) : Prop := Forall2 (Forall2 cell_rel) t g.
 
 (* the tab stops of a terminal on which no stop was set or cleared: every 8 columns *)
@@ -55,7 +63,7 @@ Record R0 (t : st) (v : vt) : Prop := mkR0 {
   r_raok : RA_ok (v_attr v);
   r_u8 : u8eat t = None;
   r_modes : modes t = modes0;
-  r_cset : cset t = charset_new;
+  r_cset : cs_rel (cset t) (v_cs v);
   r_tabs : tabstops t = tabs0 (v_w v);
   r_replies : replies_of (events t) = map render_reply (v_replies v);
   r_sb : v_sbknown v = true -> grid_rel (sb t) (tail_max (v_sb v)) }.
@@ -64,6 +72,7 @@ Ltac hist :=
   try match goal with
       | H : events ?t' = events ?t, R : replies_of (events ?t) = _ |- replies_of (events ?t') = _ => rewrite H; exact R
       | H : sb ?t' = sb ?t, R : _ = true -> grid_rel (sb ?t) _ |- _ = true -> grid_rel (sb ?t') _ => rewrite H; exact R
+      | H : cset ?t' = cset ?t, R : cs_rel (cset ?t) _ |- cs_rel (cset ?t') _ => rewrite H; exact R
       end.
 
 Definition R (s : st) (v : vt) : Prop := R0 s v /\ inesc s = false /\ pstate s = 0.
@@ -81,7 +90,7 @@ Lemma R0_moved t t' v x y p :
   R0 t' (with_xy v x y p).
 Proof.
   intros [] I' (E1 & E2 & E3 & E4 & E5 & E6 & E7 & E8 & E9 & E10 & E11 & E12) Hc Hr Hp.
-  constructor; cbn [with_xy v_w v_h v_g v_x v_y v_pend v_top v_bot v_attr v_sb v_sbknown v_replies]; try congruence; auto; hist.
+  constructor; cbn [with_xy v_w v_h v_g v_x v_y v_pend v_top v_bot v_attr v_sb v_sbknown v_replies v_cs]; try congruence; auto; hist.
 Qed.
 
 Lemma R0_parser t t' v :
@@ -90,7 +99,7 @@ Lemma R0_parser t t' v :
 Proof.
   intros [] (E1 & E2 & E3 & E4 & E5 & E6 & E7 & E8 & E9 & E10 & E11 & E12) Hc Hr H1 H2 H3 H4 H5 H6.
   constructor; try congruence; auto; hist.
-  eapply Inv_ext; [| | | | | | | | | | | | |eassumption]; auto.
+  eapply Inv_ext; [| | | | | | | | | | | | | |eassumption]; auto. rewrite E8. reflexivity.
 Qed.
 
 Lemma R0_csi_state s v l : R0 s v -> R0 (csi_state s l) v.
@@ -117,6 +126,12 @@ Definition clamp (v lim : Z) : Z := if lim <=? v then lim - 1 else if v <? 0 the
 Lemma constrain_plain t x y :
   m_constrain (modes t) = false -> constrain t x y 0 = (clamp x (width t), clamp y (height t)).
 Proof. intros H. unfold constrain, constrain_coords_gen, clamp. cbv zeta. rewrite H. reflexivity. Qed.
+
+Lemma constrain_plain1 t x y : constrain t x y 1 = (clamp x (width t), clamp y (height t)).
+Proof.
+  unfold constrain, constrain_coords_gen, clamp. cbv zeta.
+  replace (negb (negb (1 =? 0))) with false by reflexivity. rewrite andb_false_r. reflexivity.
+Qed.
 
 (* moving the cursor (clearing the pending wrap) *)
 Lemma R0_move t v x y :
@@ -375,7 +390,7 @@ Proof.
   rewrite csi_args_1 in *. cbn [arg nth] in *. rewrite dflt_zero in *.
   assert (forall r', replies_of (Respond r' :: events X) = replies_of (events X) ++ [r']) as Hr.
   { intros r'. unfold replies_of. cbn [rev]. rewrite flat_map_app. cbn [flat_map app]. reflexivity. }
-  unfold csi_status_report, respond in *. rewrite r_cur0 in *. cbn [fst snd] in *.
+  unfold csi_status_report, respond in *. rewrite r_cur0, r_modes0 in *. cbn [fst snd m_constrain modes0] in *. cbv zeta in *.
   destruct (Z.max n 0 =? 5) eqn:C5; [|destruct (Z.max n 0 =? 6) eqn:C6].
   - replace (n =? 5) with true by lia.
     constructor; cbn [v_w v_h v_g v_x v_y v_pend v_top v_bot v_attr v_sb v_sbknown v_replies events with_events]; auto.
@@ -384,7 +399,7 @@ Proof.
     constructor; cbn [v_w v_h v_g v_x v_y v_pend v_top v_bot v_attr v_sb v_sbknown v_replies events with_events]; auto.
     rewrite Hr, r_replies0, map_app. reflexivity.
   - replace (n =? 5) with false by lia. replace (n =? 6) with false by lia.
-    constructor; cbn [v_w v_h v_g v_x v_y v_pend v_top v_bot v_attr v_sb v_sbknown v_replies]; auto.
+    constructor; cbn [v_w v_h v_g v_x v_y v_pend v_top v_bot v_attr v_sb v_sbknown v_replies v_cs]; auto.
     rewrite app_nil_r. exact r_replies0.
 Qed.
 
@@ -433,10 +448,11 @@ Proof.
   split; [|split; assumption].
   constructor; cbn [vt_init v_w v_h v_g v_x v_y v_pend v_top v_bot v_attr];
     rewrite ?F1, ?F2, ?F3, ?F4, ?F5, ?F6, ?F7, ?F8, ?F9, ?F10, ?F11, ?F14, ?F15, ?F16, ?Hsb, ?Hev; auto; try reflexivity; try discriminate.
-  - unfold repeatz. apply Forall2_repeat. apply Forall2_repeat. split; [reflexivity|]. split; [reflexivity|]. split; exact Logic.I.
+  - unfold repeatz. apply Forall2_repeat. apply Forall2_repeat. split; [reflexivity|]. split; [reflexivity|]. split; [split; exact Logic.I|reflexivity].
   - unfold clamp. split_ifs; try lia. reflexivity.
   - split; exact Logic.I.
   - unfold modes_reset, modes0. rewrite Hb. reflexivity.
+  - unfold cs_rel, charset_new. cbn. repeat split; auto.
   - intros _. constructor.
 Qed.
 
@@ -463,7 +479,8 @@ Lemma cell_rel_agrees c r : cell_rel c r -> cell_agrees c r = true.
 Proof.
   destruct c as [[a cs] ch], r as [rc ra]. unfold cell_rel, cell_agrees. cbn [fst snd]. intros [-> H].
   cbn [list_eqb]. replace (rc =? rc) with true by lia. cbn [andb].
-  destruct ra as [ra|]; [|reflexivity]. destruct H as [-> Hok]. apply attr_round. assumption.
+  destruct ra as [[ra rcs]|]; [|reflexivity]. destruct H as (-> & Hok & ->). rewrite attr_round by assumption.
+  replace (rcs =? rcs) with true by lia. reflexivity.
 Qed.
 
 Lemma all2_Forall2 {A B} (f : A -> B -> bool) (P : A -> B -> Prop) l m :
@@ -490,7 +507,7 @@ Record Rg (t : st) (v : vt) : Prop := mkRg {
   g_raok : RA_ok (v_attr v);
   g_u8 : u8eat t = None;
   g_modes : modes t = modes0;
-  g_cset : cset t = charset_new;
+  g_cset : cs_rel (cset t) (v_cs v);
   g_tabs : tabstops t = tabs0 (v_w v);
   g_replies : replies_of (events t) = map render_reply (v_replies v);
   g_sb : v_sbknown v = true -> grid_rel (sb t) (tail_max (v_sb v)) }.
@@ -530,7 +547,7 @@ Lemma Rg_move t v x y p :
 Proof.
   intros H. pose proof H as [].
   destruct (stc_frame t x y) as ((E1 & E2 & E3 & E4 & E5 & E6 & E7 & E8 & E9 & E10 & E11 & E12) & C & _).
-  constructor; cbn [with_xy v_w v_h v_g v_x v_y v_pend v_top v_bot v_attr v_sb v_sbknown v_replies]; try congruence; auto; hist.
+  constructor; cbn [with_xy v_w v_h v_g v_x v_y v_pend v_top v_bot v_attr v_sb v_sbknown v_replies v_cs]; try congruence; auto; hist.
   - eapply K_Inv. apply set_term_cursor_K. assumption.
   - rewrite C. rewrite constrain_plain by (rewrite g_modes0; reflexivity). rewrite g_w0, g_h0. reflexivity.
 Qed.
@@ -584,7 +601,7 @@ Lemma Rg_upd t t' v g1 :
   tabstops t' = tabstops t -> sb t' = sb t -> events t' = events t -> grid_rel (term t') g1 -> Rg t' (with_g v g1).
 Proof.
   intros [] I' E1 E2 E3 E4 E5 E6 E7 E8 E9 E10 E11 E12 G.
-  constructor; cbn [with_g v_w v_h v_g v_x v_y v_pend v_top v_bot v_attr v_sb v_sbknown v_replies]; try congruence; auto; hist.
+  constructor; cbn [with_g v_w v_h v_g v_x v_y v_pend v_top v_bot v_attr v_sb v_sbknown v_replies v_cs]; try congruence; auto; hist.
 Qed.
 
 Lemma rowz_len t y : Inv t -> 0 <= y < height t -> zlen (rowz (term t) y) = width t.
@@ -619,7 +636,7 @@ Qed.
 (* the reference's effect of writing a character at its cursor *)
 Definition put_ref (v : vt) (ch : Z) : vt :=
   let r := nth_row (v_g v) (v_y v) in
-  with_g v (set_row (v_g v) (v_y v) (takez (v_x v) r ++ (ch, Some (v_attr v)) :: dropz (v_x v + 1) r)).
+  with_g v (set_row (v_g v) (v_y v) (takez (v_x v) r ++ (ch, Some (v_attr v, cur_cs v)) :: dropz (v_x v + 1) r)).
 
 Lemma put_grid_rel t v ch : Rg t v -> grid_rel (put_term t [ch]) (v_g (put_ref v ch)).
 Proof.
@@ -629,7 +646,16 @@ Proof.
   destruct (rowz_rel (term t) (v_g v) (v_y v) g_grid0 Hy) as (_ & _ & Rr).
   apply grid_set_row; [assumption|].
   apply Forall2_app; [apply Forall2_takez; exact Rr|]. constructor; [|apply Forall2_dropz; exact Rr].
-  split; [reflexivity|]. cbn [fst snd]. split; assumption.
+  split; [reflexivity|]. cbn [fst snd]. split; [assumption|]. split; [assumption|].
+  unfold cs_rel, cur_cs in *. destruct (v_cs v) as [[g0 g1] sh]. destruct g_cset0 as (_ & _ & _ & _ & _ & _ & _ & Ec). exact Ec.
+Qed.
+
+Lemma apply_mapping_id c k ch : cs_rel c k -> apply_mapping c ch = (c, ch).
+Proof.
+  destruct k as [[g0 g1] sh]. intros (E1 & E2 & E3 & E4 & E5 & E6 & E7 & E8). unfold apply_mapping, cs_g. rewrite E1, E6.
+  destruct E7 as [-> | [-> Hg]].
+  - replace (0 =? 0) with true by reflexivity. rewrite E2. destruct E3 as [-> | ->]; reflexivity.
+  - replace (1 =? 0) with false by reflexivity. destruct E4 as [-> | ->]; reflexivity.
 Qed.
 
 Lemma apply_mapping_new ch : apply_mapping charset_new ch = (charset_new, ch).
@@ -643,10 +669,10 @@ Lemma push_char_Rg t v ch x' y' p :
              rotten t' = rotten t /\ inesc t' = inesc t /\ pstate t' = pstate t.
 Proof.
   intros H. pose proof H as [].
-  unfold push_char. rewrite g_cset0, apply_mapping_new.
-  set (t0 := with_cset t charset_new).
+  unfold push_char. rewrite (apply_mapping_id _ _ [ch] g_cset0).
+  set (t0 := with_cset t (cset t)).
   assert (Rg t0 v) as H0.
-  { eapply Rg_same; [exact H|eapply K_Inv; apply with_cset_K; assumption| |reflexivity]. repeat split; try reflexivity. exact (eq_sym g_cset0). }
+  { eapply Rg_same; [exact H|eapply K_Inv; apply with_cset_K; assumption| |reflexivity]. repeat split; reflexivity. }
   replace (m_insert (modes t0)) with false by (subst t0; cbn [modes with_cset]; rewrite g_modes0; reflexivity).
   rewrite (set_char_eq t0 v [ch] H0). cbn [bind].
   set (t1 := with_term t0 (put_term t0 [ch])).
@@ -702,7 +728,7 @@ Proof.
   apply K_Inv in Kp.
   unfold scroll_up.
   destruct (rowz_rel (term t) (v_g v) (v_top v) g_grid0 ltac:(lia)) as (_ & _ & Rtop).
-  constructor; cbn [v_w v_h v_g v_x v_y v_pend v_top v_bot v_attr v_sb v_sbknown v_replies]; auto.
+  constructor; cbn [v_w v_h v_g v_x v_y v_pend v_top v_bot v_attr v_sb v_sbknown v_replies v_cs]; auto.
   2:{ intros Hk. apply andb_prop in Hk. destruct Hk as [Hk1 Hk2]. rewrite Hk2. apply Z.eqb_eq in Hk2.
       cbn [sb with_term]. subst t1. unfold sb_append. cbv zeta. cbn [sb with_sb]. fold (sb_push (sb t) (rowz (term t) (v_top v))).
       apply tail_max_push; [apply g_sb0; exact Hk1|]. rewrite Hk2 in Rtop. rewrite Hk2. exact Rtop. }
@@ -1043,7 +1069,7 @@ Lemma erase_eq t v p q :
    if sy =? ey then set_cells t sy sx (ex + 1)
    else VTerm.erase_rows (Z.to_nat (ey - sy + 1)) t sy sx sy ex ey).
 Proof.
-  intros []. unfold erase. rewrite !constrain_plain by (rewrite g_modes0; reflexivity). rewrite g_w0, g_h0. reflexivity.
+  intros []. unfold erase. rewrite !constrain_plain1. rewrite g_w0, g_h0. reflexivity.
 Qed.
 
 (* from Rg of the result back to R0 when only the grid changed *)
@@ -1718,8 +1744,10 @@ Proof.
   constructor; cbn [v_w v_h v_g v_x v_y v_pend v_top v_bot v_attr width height term cur sr_start sr_end rotten attrspec u8eat
                     modes cset with_attrspec with_modes with_cset]; auto.
   eapply K_Inv. eapply K_trans; [apply with_cset_K; exact I1|].
-  eapply K_trans; [apply with_modes_K; apply with_cset_K; exact I1|].
-  apply with_attrspec_K; [apply with_modes_K; apply with_cset_K; exact I1|].
+  assert (K (with_cset X (cset X)) (with_modes (with_cset X (cset X)) modes0)) as Km.
+  { apply with_modes_K; [apply with_cset_K; exact I1|]. cbn. discriminate. }
+  eapply K_trans; [exact Km|].
+  apply with_attrspec_K; [apply Km|].
   destruct (attr_of_ref (sgr args ra)) eqn:Ea; [|exact Logic.I].
   (* the built AttrSpec is in the domain *)
   unfold attr_of_ref in Ea. destruct Ok' as [P1 P2].
@@ -1792,79 +1820,3 @@ Proof.
   erewrite with_xy_eq; [apply R0_move; assumption| |]; unfold clamp; split_ifs; lia.
 Qed.
 
-Lemma list_eqb_refl l : list_eqb l l = true.
-Proof. induction l; cbn [list_eqb]; [reflexivity|]. rewrite IHl. replace (a =? a) with true by lia. reflexivity. Qed.
-
-Lemma lists_eqb_refl l : lists_eqb l l = true.
-Proof. induction l; cbn [lists_eqb]; [reflexivity|]. rewrite IHl, list_eqb_refl. reflexivity. Qed.
-
-Lemma R0_history t v : R0 t v -> agrees_history t v = true.
-Proof.
-  intros []. unfold agrees_history. rewrite r_replies0, lists_eqb_refl. cbn [andb].
-  destruct (v_sbknown v) eqn:K; [|reflexivity].
-  apply (all2_Forall2 _ (Forall2 cell_rel) _ _ (fun a b => all2_Forall2 _ cell_rel a b cell_rel_agrees) (r_sb0 eq_refl)).
-Qed.
-
-(* ---------- composition ---------- *)
-Definition cmd_small (c : cmd) : Prop :=
-  match c with
-  | CCup a b | CStbm a b => small a /\ small b
-  | CCuu n | CCud n | CCuf n | CCub n | CEl n | CEd n | CIch n | CDch n | CIl n | CDl n | CDsr n => small n
-  | CSgr l => Forall small l
-  | _ => True
-  end.
-
-Fixpoint unambiguous (v : vt) (cs : list cmd) : bool :=
-  match cs with [] => true | c :: r => negb (ambiguous v c) && unambiguous (exec v c) r end.
-
-Lemma sim_cmd c s v :
-  R s v -> cmd_ok c = true -> cmd_small c -> ambiguous v c = false ->
-  exists s', addbytes s (enc_cmd c) = Ok s' /\ R s' (exec v c).
-Proof.
-  intros HR Hok Hs Ha. destruct c; cbn [cmd_small] in Hs.
-  - cbn [cmd_ok] in Hok. apply sim_ch; [assumption|lia].
-  - apply sim_cr; assumption.
-  - apply sim_lf; assumption.
-  - apply sim_bs; assumption.
-  - apply sim_ri; assumption.
-  - destruct Hs. apply sim_cup; assumption.
-  - apply sim_cuu; assumption.
-  - apply sim_cud; assumption.
-  - apply sim_cuf; assumption.
-  - apply sim_cub; assumption.
-  - cbn [cmd_ok] in Hok. apply sim_el; [assumption|lia|assumption].
-  - cbn [cmd_ok] in Hok. apply sim_ed; [assumption|lia|assumption].
-  - apply sim_ich; assumption.
-  - apply sim_dch; assumption.
-  - apply sim_il; assumption.
-  - apply sim_dl; assumption.
-  - destruct Hs. apply sim_stbm; assumption.
-  - apply sim_sgr; assumption.
-  - apply sim_dsr; assumption.
-  - apply sim_ht; assumption.
-Qed.
-
-Lemma sim_cmds cs : forall s v,
-  R s v -> forallb cmd_ok cs = true -> Forall cmd_small cs -> unambiguous v cs = true ->
-  exists s', addbytes s (enc_cmds cs) = Ok s' /\ R s' (run_ref v cs).
-Proof.
-  induction cs as [|c r IH]; intros s v HR Hok Hs Hu.
-  - exists s. split; [reflexivity|exact HR].
-  - cbn [forallb] in Hok. apply andb_prop in Hok. destruct Hok as [Hk1 Hk2].
-    inversion Hs; subst. cbn [unambiguous] in Hu. apply andb_prop in Hu. destruct Hu as [Hu1 Hu2].
-    destruct (sim_cmd c s v HR Hk1 H1) as (s1 & E1 & R1); [destruct (ambiguous v c); [discriminate|reflexivity]|].
-    destruct (IH s1 (exec v c) R1 Hk2 H2 Hu2) as (s2 & E2 & R2).
-    exists s2. unfold enc_cmds. cbn [flat_map]. rewrite addbytes_app. rewrite E1. cbn [bind].
-    split; [exact E2|]. unfold run_ref. cbn [fold_left]. exact R2.
-Qed.
-
-Lemma refines_vt100 w h e cs :
-  1 <= w -> 1 <= h -> forallb cmd_ok cs = true -> Forall cmd_small cs -> unambiguous (vt_init w h) cs = true ->
-  exists s, run (init w h e) [Feed (enc_cmds cs)] = Ok s /\ agrees s (run_ref (vt_init w h) cs) = true /\
-            agrees_history s (run_ref (vt_init w h) cs) = true.
-Proof.
-  intros Hw Hh Hok Hs Hu.
-  destruct (sim_cmds cs (init w h e) (vt_init w h) (R_init w h e Hw Hh) Hok Hs Hu) as (s' & E & (HR & _)).
-  exists s'. cbn [run step]. rewrite addstr_addbytes by (apply init_Inv; assumption). rewrite E. cbn [bind].
-  split; [reflexivity|]. split; [apply R0_agrees|apply R0_history]; assumption.
-Qed.
